@@ -111,6 +111,12 @@ impl GroupStorage for MdkSqliteStorage {
         )
         .map_err(|e| GroupError::InvalidParameters(e.to_string()))?;
 
+        // SQLite integers are signed: an epoch above their range would wrap when cast, be
+        // stored as a negative number and make the row unreadable.
+        let epoch = i64::try_from(group.epoch).map_err(|_| {
+            GroupError::InvalidParameters("Group epoch exceeds the storable range".to_string())
+        })?;
+
         let last_message_id: Option<&[u8; 32]> =
             group.last_message_id.as_ref().map(|id| id.as_bytes());
         let last_message_at: Option<u64> = group.last_message_at.as_ref().map(|ts| ts.as_secs());
@@ -156,7 +162,7 @@ impl GroupStorage for MdkSqliteStorage {
                     last_message_id,
                     &last_message_at,
                     &last_message_processed_at,
-                    &(group.epoch as i64),
+                    &epoch,
                     group.state.as_str(),
                     &last_self_update_at
                 ],
